@@ -1016,8 +1016,16 @@ class Scanner:
             return self.expr(s.value, env)
         if isinstance(s, ast.Assign):
             out = self.expr(s.value, env)
+            v = s.value
+            empty = (isinstance(v, ast.Call) and isinstance(v.func, ast.Name) and v.func.id in ("dict", "list", "set")
+                     and not v.args and not v.keywords) or (isinstance(v, (ast.Dict, ast.List)) and
+                                                            not (v.keys if isinstance(v, ast.Dict) else v.elts))
             for t in s.targets:
-                out += self.store(t, env, s)
+                st = self.store(t, env, s)
+                if empty and self.net_access(t, env) in CACHE_KEYS:
+                    # net[k] = dict(): a fresh EMPTY container (for the leave-behind analysis: as good as absent)
+                    st = [(e[0], e[1], e[2] + "=empty") if e[0] == "W" else e for e in st]
+                out += st
             for t in s.targets:
                 self.bind_target(t, s.value, env)
             return out
@@ -1403,7 +1411,7 @@ def py_eff(tr, key, des):
         k = e[0]
         en, ea = {"U"}, set()
         if k in ("W", "M", "AW"):
-            en = {"W"} if e[1] == key else {"U"}
+            en = ({"E"} if (k == "W" and e[2].endswith("=empty")) else {"W"}) if e[1] == key else {"U"}
         elif k == "D":
             en = {"D"} if e[1] == key else {"U"}
         elif k == "C":
@@ -1749,6 +1757,37 @@ def inspected_option_keys(sc):
     return sorted(keys)
 
 
+def heat_handover_writes(sc):
+    """what use_given_hydraulic_results writes: (pit, column) for every store `x[:, COL] = ...` where x is bound to
+    net["_pit"]["node" | "branch"]; anything else it stores raises"""
+    fn = sc.S.funcs.get("use_given_hydraulic_results")
+    if fn is None:
+        raise ScanError("use_given_hydraulic_results not found")
+    pits, out = {}, []
+    for n in ast.walk(fn.node):
+        if isinstance(n, ast.Assign) and len(n.targets) == 1 and isinstance(n.targets[0], ast.Name):
+            v = n.value
+            if isinstance(v, ast.Subscript) and isinstance(v.value, ast.Subscript) and \
+                    isinstance(v.value.value, ast.Name) and v.value.value.id == "net" and \
+                    isinstance(v.value.slice, ast.Constant) and v.value.slice.value == "_pit" and \
+                    isinstance(v.slice, ast.Constant):
+                pits[n.targets[0].id] = v.slice.value
+    for n in ast.walk(fn.node):
+        tg = n.targets if isinstance(n, ast.Assign) else [n.target] if isinstance(n, ast.AugAssign) else []
+        for t in tg:
+            if isinstance(t, ast.Name):
+                continue
+            if isinstance(t, ast.Subscript) and isinstance(t.value, ast.Name) and t.value.id in pits and \
+                    isinstance(t.slice, ast.Tuple) and len(t.slice.elts) == 2 and \
+                    isinstance(t.slice.elts[0], ast.Slice) and t.slice.elts[0].lower is None and \
+                    t.slice.elts[0].upper is None and isinstance(t.slice.elts[1], ast.Name) and \
+                    isinstance(n, ast.Assign):
+                out.append((pits[t.value.id], t.slice.elts[1].id))
+            else:
+                raise ScanError("use_given_hydraulic_results: unrecognised store " + ast.unparse(t))
+    return out
+
+
 def hyd_flag_literals(sc):
     """every occurrence of the literal / keyword hyd_flag in the scanned sources: (function, kind)"""
     out = []
@@ -1869,6 +1908,9 @@ def generate(src=None):
              clist(sorted(set("(%s, %s)" % (cstr(a), cstr(b)) for a, b in sc.option_writes))) + ".\n")
     L.append("Definition inspected_option_keys : list string := " +
              clist([cstr(k) for k in inspected_option_keys(sc)]) + ".\n")
+    L.append("(* the stored hydraulic solution is written into exactly these (pit, column) pairs *)")
+    L.append("Definition heat_handover_writes : list (string * string) := " +
+             clist(["(%s, %s)" % (cstr(a), cstr(b)) for a, b in heat_handover_writes(sc)]) + ".\n")
     L.append("Definition hyd_flag_mentions : list (string * string) := " +
              clist(["(%s, %s)" % (cstr(a), cstr(b)) for a, b in hyd_flag_literals(sc)]) + ".\n")
     hs = hidden_state(src)
